@@ -22,7 +22,6 @@ type Engine struct{}
 func (e *Engine) Name() string { return "byzsim" }
 
 func init() {
-	sort.SliceStable(catalogue, func(i, j int) bool { return catalogue[i].Name < catalogue[j].Name })
 	sim.Register(&Engine{}, "C07", "C03", "C09", "C08")
 }
 
@@ -431,6 +430,9 @@ func (e *Engine) Execute(p *sim.Plan, keepLog bool) (res *sim.RunResult) {
 		res.Faults["hostile-case"]++
 	}
 	res.LogHash = model.Sha256Hex([]byte(strings.Join(hashParts, "\n")))[:16]
+	if keepLog {
+		res.Trace = append(res.Trace, hashParts...)
+	}
 	if len(keys) > 0 {
 		// every judged case is non-trivial: it carries a crafted history through the real merge
 		ks := make([]string, 0, len(keys))
